@@ -66,9 +66,9 @@ def oracle_callback(tag, shape=(), dtype=jnp.float32):
         CALL_LOG.append((f"oracle_{tag}", [onp.asarray(a) for a in args]))
         if f"oracle_{tag}" in ORACLE_RETURNS:
             return onp.asarray(ORACLE_RETURNS[f"oracle_{tag}"], dtype=dtype).reshape(shape)
-        h = 0.0
+        h = (sum(ord(ch) for ch in tag) % 17) * 0.0625  # different oracles are different functions
         for i, a in enumerate(args):
-            h += float(onp.sum(onp.asarray(a, dtype=onp.float64))) * (0.5 + 0.25 * i)
+            h += float(onp.sum(onp.asarray(a, dtype=onp.float64))) * (0.5 + 0.25 * i + (sum(ord(ch) for ch in tag) % 5) * 0.125)
         return (onp.arange(1, int(onp.prod(shape)) + 1, dtype=onp.float64).reshape(shape) * 0.125 + h).astype(dtype)
 
     _cb.__name__ = f"oracle_{tag}"
